@@ -2,6 +2,7 @@ package lint
 
 import (
 	"fmt"
+	"go/token"
 	"go/types"
 	"sort"
 	"strings"
@@ -550,4 +551,166 @@ func runC14(c *Ctx) {
 	// ---------- R14.5 resume keeps selectors
 	c.Rule("R14.5", "E3", "a re-established remote watch keeps its label/ID queries (shared with C13 R13.1)", 6)
 	resumeRequestRule(c, "R14.5")
+
+	// ---------- R14.6 (shared with C11 R11.10)
+	c.Rule("R14.6", "E3", "query converters build each term from that term only (shared with C11 R11.10): the selector that arrives at the wrapped state is the selector the caller wrote", 2)
+	perTermRules(c, "R14.6")
+
+	// ---------- R14.7 the ID selector has one interpreter too
+	c.Rule("R14.7", "E5", "IDQuery.Regexp is read only in pkg/resource (Matches) and by the client translator (String): nobody derives a second, cheaper selector from the expression; the cached list filters a copy of the whole resource slice", 2)
+
+	nRe := 0
+
+	for _, f := range p.AllOwnFuncs() {
+		pk := pkgOfFunc(f)
+		if strings.Contains(pk, "conformance") {
+			continue
+		}
+
+		for _, in := range Find(f, func(ssa.Instruction) bool { return true }) {
+			var (
+				x   ssa.Value
+				idx int
+			)
+
+			switch fa := in.(type) {
+			case *ssa.FieldAddr:
+				x, idx = fa.X, fa.Field
+			case *ssa.Field:
+				x, idx = fa.X, fa.Field
+			default:
+				continue
+			}
+
+			sn, fld := FieldOf(x, idx)
+			if sn != "IDQuery" || fld != "Regexp" {
+				continue
+			}
+
+			t := x.Type()
+			if pt, ok := t.(*types.Pointer); ok {
+				t = pt.Elem()
+			}
+
+			if n, ok := t.(*types.Named); !ok || n.Obj().Pkg() == nil || !strings.HasSuffix(n.Obj().Pkg().Path(), pkgResource) {
+				continue
+			}
+
+			// a store into the field (option constructor, server decoder building the query) is not an interpretation
+			if fa, ok := in.(*ssa.FieldAddr); ok && onlyStoredTo(fa) {
+				continue
+			}
+
+			nRe++
+
+			if !(pk == pkgResource || pk == pkgClient) {
+				c.Bad("R14.7", FuncName(f)+" :: reads IDQuery.Regexp outside pkg/resource", in.Pos(), "a second interpretation of the ID selector: direct, cached and remote evaluation can diverge")
+			}
+		}
+	}
+
+	c.Check(nRe >= 2, "R14.7", "IDQuery.Regexp read sites are confined to pkg/resource and the client translator", 0, fmt.Sprintf("%d sites", nRe), fmt.Sprintf("only %d sites found", nRe))
+
+	if f := p.Method(pkgCache, "cacheHandler", "list"); c.NeedFunc("R14.7", f, handlerT+".list") {
+		fl := p.Calls(f, "github.com/siderolabs/gen/xslices.Filter")
+		cl := p.Calls(f, "slices.Clone")
+		ok := len(cl) == 1 && Glob("*param#0.resources", p.ArgDesc(cl[0], 0))
+
+		for _, call := range fl {
+			ok = ok && Glob("call:slices.Clone(*param#0.resources)", p.ArgDesc(call, 0))
+		}
+
+		c.Check(ok && len(fl) == 1, "R14.7", FuncName(f)+" :: the selector is applied to a copy of the whole cache content", fpos(f), "Filter(Clone(h.resources), matcher)", "the candidates are pre-selected by something other than the matcher")
+	}
+
+}
+
+// onlyStoredTo: the field address is only the target of stores.
+func onlyStoredTo(fa *ssa.FieldAddr) bool {
+	if fa.Referrers() == nil || len(*fa.Referrers()) == 0 {
+		return false
+	}
+
+	for _, r := range *fa.Referrers() {
+		st, ok := r.(*ssa.Store)
+		if !ok || st.Addr != ssa.Value(fa) {
+			return false
+		}
+	}
+
+	return true
+}
+
+// perTermRules: in the two label-query converters, no argument of a per-term constructor and no
+// field of a per-term message is loop-carried.
+func perTermRules(c *Ctx, rule string) {
+	p := c.P
+
+	if f := p.Func(pkgServer, "ConvertLabelQuery"); c.NeedFunc(rule, f, "server.ConvertLabelQuery") {
+		n := 0
+		bad := ""
+
+		var pos token.Pos
+
+		for _, call := range p.Calls(f, "pkg/resource.Label*") {
+			n++
+
+			for i, a := range CallArgs(call) {
+				if carried, at := LoopCarried(a); carried {
+					bad = fmt.Sprintf("argument %d of %s depends on the previous term through %s", i, p.CalleeName(call), p.DescN(at, 2))
+					pos = call.Pos()
+				}
+			}
+		}
+
+		if n < 7 {
+			c.Unknown(rule, FuncName(f)+" :: per-term constructors", fpos(f), fmt.Sprintf("anchor-unresolved: expected >= 7 term constructor calls, found %d", n))
+		} else {
+			if pos == token.NoPos {
+				pos = fpos(f)
+			}
+
+			c.Check(bad == "", rule, FuncName(f)+" :: every term constructor is called with values of the current term only", pos, fmt.Sprintf("%d constructor calls, none loop-carried", n), bad)
+		}
+	}
+
+	if f := p.Func(pkgClient, "transformLabelQuery"); c.NeedFunc(rule, f, "client.transformLabelQuery") {
+		n := 0
+		bad := ""
+
+		var pos token.Pos
+
+		for _, in := range Find(f, func(in ssa.Instruction) bool {
+			st, ok := in.(*ssa.Store)
+			if !ok {
+				return false
+			}
+
+			fa, ok := st.Addr.(*ssa.FieldAddr)
+			if !ok {
+				return false
+			}
+
+			sn, _ := FieldOf(fa.X, fa.Field)
+
+			return sn == "LabelTerm"
+		}) {
+			n++
+
+			if carried, at := LoopCarried(in.(*ssa.Store).Val); carried {
+				bad = "a field of the wire term depends on the previous term through " + p.DescN(at, 2)
+				pos = in.Pos()
+			}
+		}
+
+		if n < 8 {
+			c.Unknown(rule, FuncName(f)+" :: per-term message fields", fpos(f), fmt.Sprintf("anchor-unresolved: expected >= 8 stores into LabelTerm fields, found %d", n))
+		} else {
+			if pos == token.NoPos {
+				pos = fpos(f)
+			}
+
+			c.Check(bad == "", rule, FuncName(f)+" :: every wire term is filled from the current term only", pos, fmt.Sprintf("%d field stores, none loop-carried", n), bad)
+		}
+	}
 }
